@@ -324,6 +324,10 @@ fn cmd_rolling(args: &[String]) {
     rolling::marathon(&mut sink, 65536, if thorough { 70_000_000 } else { 30_000_000 }, 10_000_000, &|_| 0xff);
     rolling::marathon(&mut sink, 2048, if thorough { 40_000_000 } else { 26_000_000 }, 13_000_000,
                       &|i| { let x = (i as u64).wrapping_mul(0x9E37_79B9_7F4A_7C15).wrapping_add(mseed); 0xe0 | ((x >> 40) as u8 & 0x1f) });
+    // ... and over data that swings between long runs of low and of high bytes (the window's sums travel their whole range again
+    // and again between any two reductions, whatever the reduction interval is)
+    rolling::marathon(&mut sink, 8192, if thorough { 12_000_000 } else { 3_000_000 }, 1_000_003, &|i| if (i / 60_000) % 2 == 0 { 0x01 } else { 0xfe });
+    rolling::marathon(&mut sink, 65536, if thorough { 6_000_000 } else { 1_500_000 }, 700_001, &|i| if (i / 150_000) % 2 == 0 { 0x00 } else { 0xff });
     sink.finish();
     println!("{}", json!({"files": sink.files, "events": sink.events, "runs": sink.runs, "literal_runs": literal_runs,
         "replicated_runs": replicated_runs, "long_runs": nlong, "plain_fast_disagreements": sink.disagreements}));
